@@ -3,6 +3,9 @@
 //!          functions: the cluster lists of normalize(clean(s)) under the requested use_graphemes),
 //!          `raw` the unprocessed strings the implementation is called with
 //! output = (0 x) | (1) Err | (-777) panic
+//! Every f64 crosses as its bit fields (k s m e): k = 0 zero, 1 finite non-zero (value m * 2^e with the
+//! canonical mantissa), 2 infinity, 3 NaN; s = sign bit.  beta in cfg is such a 4-list (older corpus files:
+//! a rational (num den)).
 use text_utils::metrics::{
     accuracy, binary_f1, mean_edit_distance, mean_normalized_edit_distance, spelling_correction_f1,
     whitespace_correction_f1, F1Info, WhitespaceCorrectionMode,
@@ -14,24 +17,57 @@ use vh::*;
 
 struct C13;
 
-/// an f64 as (mantissa exponent 1) exactly; () if not finite
+/// an f64 as the fields of `to_bits`: (k s m e)
 fn f64_val(x: f64) -> Val {
-    if !x.is_finite() {
-        return Val::L(vec![]);
-    }
-    if x == 0.0 {
-        return Val::L(vec![Val::I(0), Val::I(0), Val::I(1)]);
-    }
     let bits = x.to_bits();
-    let neg = (bits >> 63) != 0;
+    let s = (bits >> 63) as i64;
     let exp = ((bits >> 52) & 0x7ff) as i64;
     let frac = (bits & ((1u64 << 52) - 1)) as i64;
-    let (mut m, mut e) = if exp == 0 { (frac, -1074) } else { (frac | (1i64 << 52), exp - 1075) };
-    while m % 2 == 0 {
-        m /= 2;
-        e += 1;
+    let l = |k: i64, s: i64, m: i64, e: i64| Val::L(vec![Val::I(k), Val::I(s), Val::I(m), Val::I(e)]);
+    if exp == 0x7ff {
+        if frac == 0 {
+            l(2, s, 0, 0)
+        } else {
+            l(3, 0, 0, 0)
+        }
+    } else if exp == 0 {
+        if frac == 0 {
+            l(0, s, 0, 0)
+        } else {
+            l(1, s, frac, -1074)
+        }
+    } else {
+        l(1, s, frac | (1i64 << 52), exp - 1075)
     }
-    Val::L(vec![Val::I(if neg { -m } else { m }), Val::I(e), Val::I(1)])
+}
+
+/// the inverse; only canonical encodings are accepted
+fn val_f64(v: &Val) -> Option<f64> {
+    let l = v.as_l()?;
+    if l.len() != 4 {
+        return None;
+    }
+    let (k, s, m, e) = (l[0].as_i()?, l[1].as_i()?, l[2].as_i()?, l[3].as_i()?);
+    if s != 0 && s != 1 {
+        return None;
+    }
+    let sign = (s as u64) << 63;
+    match k {
+        0 if m == 0 && e == 0 => Some(f64::from_bits(sign)),
+        1 => {
+            let bits = if e == -1074 && m > 0 && m < (1i64 << 52) {
+                m as u64
+            } else if m >= (1i64 << 52) && m < (1i64 << 53) && (-1074..=971).contains(&e) {
+                (((e + 1075) as u64) << 52) | (m as u64 & ((1u64 << 52) - 1))
+            } else {
+                return None;
+            };
+            Some(f64::from_bits(bits | sign))
+        }
+        2 if m == 0 && e == 0 => Some(f64::from_bits(sign | (0x7ffu64 << 52))),
+        3 if s == 0 && m == 0 && e == 0 => Some(f64::NAN),
+        _ => None,
+    }
 }
 
 fn fpr_val(x: (f64, f64, f64)) -> Val {
@@ -179,8 +215,38 @@ fn respace(rng: &mut Rng, text: &str, density: usize) -> String {
     s
 }
 
-fn beta_val(b: (i64, i64)) -> Val {
-    Val::L(vec![Val::I(b.0), Val::I(b.1)])
+/// 2^e * (1 + 52 random fraction bits): the violations of F <= 1 need a beta^2 that is not exact
+fn scaled_beta(rng: &mut Rng, e: i32) -> f64 {
+    let frac = (rng.next_u64() >> 12) as f64 / (1u64 << 52) as f64;
+    (1.0 + frac) * 2f64.powi(e)
+}
+
+/// ordinary betas (70%), tiny 2^-30..2^-10 and huge 2^10..2^30 with random mantissas (12% each), negative,
+/// far-out but legal (beta^2 underflows / is huge but finite), and the KF4 class (beta or beta^2 not finite)
+fn gen_beta(rng: &mut Rng) -> f64 {
+    let k = rng.below(100);
+    if k < 70 {
+        let b = *rng.pick(BETAS);
+        b.0 as f64 / b.1 as f64
+    } else if k < 82 {
+        // half of them where 1 + beta^2 starts to round to 1 (beta^2 about 2^-53)
+        let e = -(if rng.chance(1, 2) { rng.range(25, 28) } else { rng.range(10, 30) } as i32);
+        if rng.chance(1, 5) { 2f64.powi(e) } else { scaled_beta(rng, e) }
+    } else if k < 94 {
+        let e = if rng.chance(1, 2) { rng.range(25, 28) } else { rng.range(10, 30) } as i32;
+        if rng.chance(1, 5) { 2f64.powi(e) } else { scaled_beta(rng, e) }
+    } else if k < 96 {
+        let b = *rng.pick(BETAS);
+        -(b.0 as f64 / b.1 as f64)
+    } else if k < 99 {
+        *rng.pick(&[2f64.powi(-600), 2f64.powi(-537), 5e-324, 1e-160, 2f64.powi(500), 1.3e154, 2f64.powi(511), 1e100, -0.0])
+    } else {
+        *rng.pick(&[f64::NAN, f64::INFINITY, f64::NEG_INFINITY, 1e200, f64::MAX, 1.4e154, -1e300])
+    }
+}
+
+fn beta_val(b: f64) -> Val {
+    f64_val(b)
 }
 
 fn strs_val(l: &[String]) -> Val {
@@ -332,14 +398,39 @@ fn gen_triples(rng: &mut Rng, spelling: bool, kf3_stream: bool) -> (Vec<String>,
 impl Prop for C13 {
     fn gen(&mut self, rng: &mut Rng, _tier: Tier, _i: usize, _n: usize) -> Val {
         let k = rng.below(100);
-        let beta = *rng.pick(BETAS);
+        let beta = gen_beta(rng);
         let g = rng.chance(1, 2);
-        let v = if k < 8 {
+        let v = if k < 4 {
             let n = rng.below(9);
             let m = if rng.chance(1, 8) { rng.below(9) } else { n };
             let bias = rng.range(1, 3);
             let p: Vec<Val> = (0..n).map(|_| Val::b(rng.chance(bias, 4))).collect();
             let t: Vec<Val> = (0..m).map(|_| Val::b(rng.chance(2, 4))).collect();
+            build(0, vec![beta_val(beta)], vec![Val::L(p), Val::L(t)])
+        } else if k < 10 {
+            // counts stream: chosen tp/fp/fn (precision or recall often exactly 1), small to a few thousand
+            let big = rng.chance(1, 6);
+            let tp = if big { rng.below(3001) } else { rng.below(41) };
+            let side = |rng: &mut Rng| -> usize {
+                match rng.below(6) {
+                    0..=2 => 0,
+                    3 => rng.range(1, 3),
+                    4 => rng.below(if big { 60 } else { 12 }),
+                    _ => rng.below(if big { 3001 } else { 41 }),
+                }
+            };
+            let (fp, fn_) = (side(rng), side(rng));
+            let tn = rng.below(4);
+            let mut pairs: Vec<(bool, bool)> = vec![];
+            pairs.extend(std::iter::repeat((true, true)).take(tp));
+            pairs.extend(std::iter::repeat((true, false)).take(fp));
+            pairs.extend(std::iter::repeat((false, true)).take(fn_));
+            pairs.extend(std::iter::repeat((false, false)).take(tn));
+            if rng.chance(1, 2) {
+                rng.shuffle(&mut pairs);
+            }
+            let p: Vec<Val> = pairs.iter().map(|x| Val::b(x.0)).collect();
+            let t: Vec<Val> = pairs.iter().map(|x| Val::b(x.1)).collect();
             build(0, vec![beta_val(beta)], vec![Val::L(p), Val::L(t)])
         } else if k < 14 {
             let n = rng.below(7);
@@ -349,7 +440,18 @@ impl Prop for C13 {
             build(1, vec![], vec![Val::L(p), Val::L(t)])
         } else if k < 26 {
             let kf = rng.chance(1, 10);
-            let (a, b, _) = gen_triples(rng, true, kf);
+            let (mut a, mut b, _) = gen_triples(rng, true, kf);
+            if rng.chance(1, 4) {
+                // many sequences: the parallel sum is a balanced tree (exact model for <= 32 sequences)
+                let want = rng.range(5, 32);
+                while a.len().min(b.len()) < want {
+                    let (x, y, _) = gen_triples(rng, true, false);
+                    a.extend(x);
+                    b.extend(y);
+                }
+                a.truncate(want);
+                b.truncate(want);
+            }
             let (a, b) = if rng.chance(1, 6) {
                 (vec![String::new(); a.len()], vec![String::new(); b.len()])
             } else if rng.chance(1, 3) {
@@ -398,16 +500,27 @@ impl Prop for C13 {
         let mut tags: Vec<String> = vec![];
         let beta_of = |v: &Val| -> Option<f64> {
             let b = v.as_l()?;
-            let (n, d) = (b.first()?.as_i()?, b.get(1)?.as_i()?);
-            if d <= 0 || (d & (d - 1)) != 0 || n.abs() > 1 << 20 || d > 1 << 20 {
-                return None;
+            if b.len() == 2 {
+                let (n, d) = (b[0].as_i()?, b[1].as_i()?);
+                if d <= 0 || (d & (d - 1)) != 0 || n.abs() > 1 << 20 || d > 1 << 20 {
+                    return None;
+                }
+                return Some(n as f64 / d as f64);
             }
-            Some(n as f64 / d as f64)
+            val_f64(v)
+        };
+        let beta_tags = |beta: f64, tags: &mut Vec<String>| {
+            if !beta.is_finite() || !(beta * beta).is_finite() {
+                tags.push("class:KF4".into());
+            } else if beta != 0.0 && (beta.abs() < 1.0 / 512.0 || beta.abs() > 512.0) {
+                tags.push("xbeta".into());
+            }
         };
         let out = match f {
             0 => {
                 tags.push("binary_f1".into());
                 let beta = beta_of(cfg.first()?)?;
+                beta_tags(beta, &mut tags);
                 let bools = |v: &Val| -> Option<Vec<bool>> {
                     v.as_l()?.iter().map(|b| match b.as_i()? { 0 => Some(false), 1 => Some(true), _ => None }).collect()
                 };
@@ -445,6 +558,7 @@ impl Prop for C13 {
             }
             3 | 4 => {
                 let beta = beta_of(cfg.first()?)?;
+                beta_tags(beta, &mut tags);
                 let seq_avg = cfg.get(1)?.as_bool()?;
                 let (mode, g) = if f == 3 {
                     let m = cfg.get(2)?.as_i()?;
@@ -504,7 +618,7 @@ impl Prop for C13 {
                 });
                 // non-trivial: an Ok result with precision or recall strictly between 0 and 1
                 let frac = |v: &Val| -> bool {
-                    matches!(v.as_l(), Some([Val::I(m), Val::I(e), _]) if *m > 0 && !(*m == 1 && *e == 0))
+                    matches!(v.as_l(), Some([Val::I(1), Val::I(0), Val::I(m), Val::I(e)]) if !(*m == 1i64 << 52 && *e == -52))
                 };
                 if let Some([Val::I(0), x]) = out.as_l() {
                     let fpr = if f == 3 { x.nth(0) } else { Some(x) };
@@ -543,5 +657,8 @@ impl Prop for C13 {
 }
 
 fn main() {
+    // rayon's parallel f64 sum in _mean_edit_distance splits by a thread-count budget: pin it so that the
+    // reduction tree is the balanced one the model describes on every machine (see notes/C13.md)
+    std::env::set_var("RAYON_NUM_THREADS", "16");
     main_loop(C13);
 }
